@@ -21,7 +21,7 @@ RULE = ("histories of 5-25 operations (compile into / clone / drop / search) ove
 
 def gen(ctx):
     rng = ctx.rng
-    n = 800 if ctx.tier == "quick" else 20000
+    n = 800 if ctx.tier == "quick" else 100000
     eg = G.ExprGen(rng, funcs=True, maxdepth=2)
     cases = []
     for _ in range(n):
